@@ -264,10 +264,15 @@ class ConciliationMonitor(Monitor):
                 self.flags.add('keeper-check-skipped:stale-uptime')
             elif identifier in starts and len(starts) == len(view[namespec]):
                 others = [t for i, t in starts.items() if i != identifier]
+                # diagnosis of the known root cause: the request comes from an earlier decision (on other copies)
+                # whose stop commands were deferred behind another job of the application and are not re-validated
+                fresh = any(d['m'] == (inst.idx, inst.incarnation) and d['namespec'] == namespec and d['time'] == w.now
+                            and set(d['view']) == set(view[namespec]) for d in self.decisions)
+                diag = '' if fresh else ':stops-of-an-earlier-decision-sent-late'
                 if self.strategy == 'SENICIDE' and all(starts[identifier] > t + tol for t in others):
-                    self.findings.append(('SENICIDE:most-recent-copy-stopped', f'{where}: true starts {starts}'))
+                    self.findings.append(('SENICIDE:most-recent-copy-stopped' + diag, f'{where}: true starts {starts}'))
                 if self.strategy == 'INFANTICIDE' and all(starts[identifier] < t - tol for t in others):
-                    self.findings.append(('INFANTICIDE:oldest-copy-stopped', f'{where}: true starts {starts}'))
+                    self.findings.append(('INFANTICIDE:oldest-copy-stopped' + diag, f'{where}: true starts {starts}'))
 
     def after_step(self, world):
         # SENICIDE / INFANTICIDE: all the copies listed stopped at the same instant
